@@ -9,11 +9,11 @@ def run(ctx):
         ctx.run_shards(b, "TestVerifC02", 1, 600, "c02")
     else:
         quick = ctx.tier == "quick"
-        ctx.run_shards(b, "TestVerifC02", 17 if quick else 20, 900 if quick else 3400, "c02")
+        ctx.run_shards(b, "TestVerifC02", 20 if quick else 22, 900 if quick else 3400, "c02")
         # the same workload with 2 OS threads and under the race detector (schedule perturbation; reports are diagnostics)
-        ctx.run_shards(b, "TestVerifC02", 9 if quick else 16, 900 if quick else 3400, "c02p2", extra_env={"GOMAXPROCS": "2", "VERIF_TIER": "quick", "VERIF_C02_NOQUIET": "1"})
+        ctx.run_shards(b, "TestVerifC02", 10 if quick else 18, 900 if quick else 3400, "c02p2", extra_env={"GOMAXPROCS": "2", "VERIF_TIER": "quick", "VERIF_C02_NOQUIET": "1"})
         br = ctx.build(pkg, race=True)
-        ctx.run_shards(br, "TestVerifC02", 9, 1500 if quick else 3400, "c02race", extra_env={"VERIF_TIER": "quick", "VERIF_C02_NOQUIET": "1"}, race=True)
+        ctx.run_shards(br, "TestVerifC02", 10, 1500 if quick else 3400, "c02race", extra_env={"VERIF_TIER": "quick", "VERIF_C02_NOQUIET": "1"}, race=True)
     return driver.finish(
         ctx, "exploration",
         "one physical session per case. Scripted independence: a coordinator holds 1-6 other logical connections (on 1-3 channels) in chosen states "
